@@ -8,7 +8,7 @@
    directories and — without -allowEmptyFolder — all-empty folders left out).
    Items are compared as segment paths; a key is rendered by join_slash. *)
 From Coq Require Import List NArith ZArith Bool String.
-From SW Require Import model.S3List model.S3ListMut proof.S3ListProofs proof.S3ListSound proof.S3ListExact
+From SW Require Import model.S3List model.S3ListMut model.S3ListV2 proof.S3ListV2 proof.S3ListProofs proof.S3ListSound proof.S3ListExact
                        proof.S3ListPaging proof.S3ListFlat proof.S3ListRefute proof.S3ListMut proof.S3ListSingle.
 Import ListNotations.
 Local Open Scope string_scope.
@@ -293,3 +293,72 @@ Example c27_list_deletes_empty_folders_example :
   lists_equal_keys t (snd r) = true.
 Proof. exact list_deletes_empty_folders. Qed.
 Print Assumptions c27_list_deletes_empty_folders_example.
+
+(* ================= the request forms: V1 marker, V2 continuation-token / start-after ================= *)
+
+(* The run the correspondence check evaluates is the REQUEST-level client of model/S3ListV2.v
+   (run_client: list-type=2 or not, marker, continuation-token, start-after, fetch-owner,
+   encoding-type; the handler derives its marker by handler_marker).  The theorems above speak
+   about the marker-level client run_m / paginate; these link the two. *)
+
+(* ListObjectsV2Handler: a non-empty continuation token wins over start-after, whatever
+   the byte order of the two; fetch-owner, encoding-type and a stray V1 marker do not matter. *)
+Theorem c27_v2_token_wins : forall m token startAfter fo enc,
+  token <> "" -> handler_marker (mk_req true m token startAfter fo enc) = token.
+Proof. exact handler_marker_v2_token_wins. Qed.
+Print Assumptions c27_v2_token_wins.
+
+Theorem c27_v2_first_request : forall m startAfter fo enc,
+  handler_marker (mk_req true m "" startAfter fo enc) = startAfter.
+Proof. exact handler_marker_v2_no_token. Qed.
+Print Assumptions c27_v2_first_request.
+
+(* ListObjectsV1Handler reads the marker only *)
+Theorem c27_v1_marker_only : forall m t s fo enc, handler_marker (mk_req false m t s fo enc) = m.
+Proof. exact handler_marker_v1. Qed.
+Print Assumptions c27_v1_marker_only.
+
+(* a request is served according to its derived marker alone *)
+Theorem c27_serve_only_marker : forall ae rootk prefix M delim rq rq',
+  handler_marker rq = handler_marker rq' ->
+  serve ae rootk prefix M delim rq = serve ae rootk prefix M delim rq'.
+Proof. exact serve_only_marker. Qed.
+Print Assumptions c27_serve_only_marker.
+
+(* FULL for clients that do not resend: every style of the request-level client, any first
+   marker / start-after, any stray parameters, fetch-owner, encoding-type: same pages and
+   same final bucket as the marker-level client of the theorems above. *)
+Theorem c27_request_client_is_marker_client : forall n ae rootk prefix M delim st start stray fo enc,
+  let cl := mk_client st false start stray fo enc in
+  map snd (fst (run_client n ae rootk prefix M delim cl)) =
+    map snd (fst (run_m n ae rootk prefix M delim st start)) /\
+  snd (run_client n ae rootk prefix M delim cl) = snd (run_m n ae rootk prefix M delim st start).
+Proof. exact plain_client_is_run_m. Qed.
+Print Assumptions c27_request_client_is_marker_client.
+
+(* The SDK-paginator form: the ORIGINAL start-after is resent with every continuation
+   token.  As long as every truncated page carries a non-empty token (decidable on the
+   marker-level run), resending changes nothing: same pages, same final bucket -- in
+   particular also where a token sorts BELOW the resent start-after. *)
+Theorem c27_resend_start_after_same_pages : forall n ae rootk prefix M delim start stray fo enc resend,
+  let cl := mk_client V2Token resend start stray fo enc in
+  tokens_nonempty (fst (run_m n ae rootk prefix M delim V2Token start)) = true ->
+  map snd (fst (run_client n ae rootk prefix M delim cl)) =
+    map snd (fst (run_m n ae rootk prefix M delim V2Token start)) /\
+  snd (run_client n ae rootk prefix M delim cl) = snd (run_m n ae rootk prefix M delim V2Token start).
+Proof. exact resend_start_after_same_pages. Qed.
+Print Assumptions c27_resend_start_after_same_pages.
+
+(* non-vacuity: logs/a..c beside logs.tar.gz ('.' sorts below '/'), start-after = logs/a
+   resent, max-keys 1: the token "logs.tar.gz" sorts below the start-after and is followed *)
+Example c27_resend_example :
+  wf t_v2 = true /\
+  tokens_nonempty (fst (run_m 10 true t_v2 "" 1 false V2Token "logs/a")) = true /\
+  map (fun x => pg_keys (snd x))
+      (fst (run_client 10 true t_v2 "" 1 false (mk_client V2Token true "logs/a" "" true true))) =
+    [["logs/b"]; ["logs/c"]; ["logs.tar.gz"]; ["m"]] /\
+  map (fun x => (rq_token (fst x), rq_start_after (fst x)))
+      (fst (run_client 10 true t_v2 "" 1 false (mk_client V2Token true "logs/a" "" true true))) =
+    [("", "logs/a"); ("logs/b", "logs/a"); ("logs/c", "logs/a"); ("logs.tar.gz", "logs/a")].
+Proof. exact resend_example. Qed.
+Print Assumptions c27_resend_example.
